@@ -1944,8 +1944,17 @@ impl QueryRouter {
             }
         }
 
-        // Execute the statement
-        let result = self.execute_statement(&stmt)?;
+        // Execute the statement. A write statement that fails may already have changed data
+        // (e.g. the first rows of a multi-row INSERT), so the cache is dropped on its error too.
+        let result = match self.execute_statement(&stmt) {
+            Ok(result) => result,
+            Err(e) => {
+                if Self::is_write_statement(&stmt) {
+                    self.invalidate_cache_on_write();
+                }
+                return Err(e);
+            },
+        };
 
         // Cache the result for cacheable statements
         if Self::is_cacheable_statement(&stmt) {
@@ -6968,8 +6977,17 @@ impl QueryRouter {
             }
         }
 
-        // Execute the statement asynchronously
-        let result = self.execute_statement_async(&stmt).await?;
+        // Execute the statement asynchronously. A failed write may already have changed data,
+        // so the cache is dropped on its error too.
+        let result = match self.execute_statement_async(&stmt).await {
+            Ok(result) => result,
+            Err(e) => {
+                if Self::is_write_statement(&stmt) {
+                    self.invalidate_cache_on_write();
+                }
+                return Err(e);
+            },
+        };
 
         // Cache the result for cacheable statements
         if Self::is_cacheable_statement(&stmt) {
